@@ -287,7 +287,8 @@ def run(spec, cfg, workers=None, timeout=1200, simulate=None, depth=None, seed=N
 
 def _parse_error_trace(out):
     tr = []
-    for m in re.finditer(r'State (\d+): <([^>]*)>\n((?:(?!\nState \d+:|\n\n).|\n(?!State \d+:|\n))*)', out):
+    for m in re.finditer(r'State (\d+): <(Initial predicate|.*? line \d+, col \d+ to line \d+, col \d+ of module \w+)>\n'
+                         r'((?:(?!\nState \d+:|\n\n).|\n(?!State \d+:|\n))*)', out):
         label = m.group(2)
         label = re.sub(r' line \d+, col \d+ to line \d+, col \d+ of module \w+', '', label).strip()
         try:
